@@ -22,7 +22,16 @@ CLAIMS["C03"] = {
 }
 CLAIMS["C01"] = {
     "text": "Same keeper-level inductive step as C03 with the conservation clause: after every operation the ledger's escrow-module balance equals the sum of all recorded account and payment balances plus the outside-universe remainder; deposits debit exactly the depositor, payouts go only to parties of the account operated on, failed operations move nothing; plus the settlement-kernel conservation obligations of C02.",
-    "note": "Trusted as C03. The bank is the two-method contract of x/escrow/keeper/external.go; x/bank internals, fees and the handler-level wiring (only escrow moves escrow coins) are outside this check until the chain-step harness is registered.",
+    "note": "Trusted as C03. The bank is the two-method contract of x/escrow/keeper/external.go; The handler-level chain step (all 12 deployment/market handlers with real hooks) asserts the same conservation clause and that only the signer pays in. x/bank internals and fees are outside.",
+}
+CHAIN_NOTE = "Trusted: engine SSA semantics; store/codec/context/params models; ledger bank contract; bech32 bijection; integer model. Universe: one focus deployment with one group, 1 order slot x 2 providers (thorough: also 2 order slots x 1 provider) plus a bystander deployment whose number (12) collides with the focus (1) as a decimal prefix. Histories are covered by induction over INV; an INV state that no history reaches can only cause a spurious alarm (none on the unchanged tree), never hide a violation of the step."
+CLAIMS["C04"] = {
+    "text": "Handler-level inductive step: each of the 12 deployment and market message handlers (real msg servers, keepers and escrow hooks wired as in app.setAkashKeepers) is executed symbolically for one message from an arbitrary pre-state satisfying the invariant (record presence enumerated, every state and number symbolic); after every accepted message each record-agreement clause of the statement (L1-L6 of DESIGN Appendix A) and the never-reopens clauses are SMT obligations.",
+    "note": CHAIN_NOTE,
+}
+CLAIMS["C05"] = {
+    "text": "Same handler-level inductive step with the money-follows-lifecycle clauses: lease active iff its payment is open, bid open/matched iff its deposit account is open, deployment active iff its escrow account is open, checked after every accepted message including overdraft hooks and several actions in one block (height gap 0 is inside the symbolic range); plus the keeper-level hook obligations of the escrow step.",
+    "note": CHAIN_NOTE,
 }
 NOT_APPLICABLE = {}
 NOTES = "Work in progress: checks are added property by property; see DESIGN.md §9 for deviations from the plan."
